@@ -355,10 +355,10 @@ impl Monitor for C07 {
         let nc = core_len();
         let mut v = split_chunks("core", 0, nc, nc, 400);
         let nr = match tier {
-            Tier::Quick => 15_000,
-            Tier::Thorough => 150_000,
+            Tier::Quick => 60_000,
+            Tier::Thorough => 600_000,
         };
-        v.extend(split_chunks("rand", seed_offset(seed, "C07r", 150_000), nr, 150_000, 400));
+        v.extend(split_chunks("rand", seed_offset(seed, "C07r", 600_000), nr, 600_000, 400));
         v
     }
     fn run_case(&self, kind: &str, idx: u64) -> CaseResult {
